@@ -104,6 +104,7 @@ func init() {
 		Explain: "Decides the rejection clause and the wiring of coordinate addressing: (S1) every non-error iteration path of Ltoi's coordinate loop has established coord >= 0 and coord < size, and the scalar branch accepts only 0; (S2) in At/SetAt/MaskAt/SetMaskAt every path to Get/Set/mask[...] has passed the arity check and the error check of the offset computation and uses exactly that offset, at() is Ltoi over the tensor's own Shape() and Strides(), maskAt() is at(); (K3/K1arms) the typed Get/Set/Memset arms of array and storage.Header use only accessors and assertions of their own label type and agree with their sibling arms; (S8) stride-routine selection by data order. " +
 			"Not decided: that CalcStrides* compute the right products and that Ltoi's sum is the rank in data order (value arithmetic); behaviour of the column-major converting constructor.",
 		Run: func(rc *rules.RC) {
+			rules.T13(rc)
 			rules.FL(rc, 2)
 			rules.O6(rc)
 			rules.V2(rc, 2)
@@ -127,6 +128,7 @@ func init() {
 		Explain: "Decides: (S3) CheckSlice accepts only when start <= end, start >= 0, not(step == 0 and end-start > 1), start < size, and SliceDetails validates every non-nil slice, clamps end and expands nil to (0,size,1); (S4) AP.S and Shape.S refuse more slices than axes and take (start,end,step) of every axis from SliceDetails; (S5) the length term under step > 0 is ceil((end-start)/step) with no extra condition, identical in both calculators; (S9) Slice/SliceInto take window and access pattern from one AP.S call, slice data and mask with the same window, record the parent and copy dtype/engine/flag. " +
 			"(S12) the sliced access pattern is marked NonContiguous at least when a non-outermost axis of a non-vector is sliced or a step > 1 is taken, with the outermost axis chosen by data order (names bound structurally). Not decided: offset (ndStart/ndEnd) arithmetic, stride scaling, which dimensions are dropped.",
 		Run: func(rc *rules.RC) {
+			rules.LGuards(rc, "C02")
 			rules.FL(rc, 2)
 			rules.LC(rc, 18)
 			rules.S20(rc)
@@ -145,6 +147,8 @@ func init() {
 		Explain: "Decides: (S5) the shape-only slice calculator and the access-pattern slice calculator compute the same length term, which is ceil((end-start)/step); (S4) both validate through SliceDetails and refuse too many slices; (S7) every path of Reshape that reaches reshape() has established equal total size, is not a non-contiguous view and has materialised a pending lazy transpose, and reshape() only sets the shape and checks sanity; (O8) for the metadata-invariant clause: no two tensors own the same shape/strides slices (an alias lets one tensor's reshape or recycling zero the other's shape); (S12) AP.S marks sliced views NonContiguous (the flag Reshape's refusal keys on); (S14) every call of the lock-respecting AP.SetShape happens on a pattern unlocked on every path (otherwise the shape is silently not installed and size != product of shape); (L1) RepeatReuse accepts a destination only when its shape is the computed result shape. " +
 			"Not decided: that shape and strides address distinct in-bounds positions (a runtime invariant over values), that reshape preserves the flat sequence, repeat/concat calculators' arithmetic.",
 		Run: func(rc *rules.RC) {
+			rules.T13(rc)
+			rules.S3(rc)
 			rules.S20(rc)
 			rules.T10(rc)
 			rules.T7(rc)
@@ -168,6 +172,7 @@ func init() {
 			"Not decided: that the permutation arithmetic (UnsafePermute, cycle following, iterator order) is the right permutation; the composition law.",
 		Quick: []string{"default", "inplacetranspose"},
 		Run: func(rc *rules.RC) {
+			rules.T13(rc)
 			rules.T11(rc)
 			rules.S18(rc)
 			rules.T9(rc)
@@ -462,6 +467,7 @@ func init() {
 			"Not decided: corruption through backing arrays the API documents as shared; use-after-return inside one function (O9) beyond the rules above.",
 		Assume: []string{"interface calls resolve to the module's implementing types (CHA restricted to the module)", "flow-insensitive origin tracing through locals and captured variables (over-approximates aliases)"},
 		Run: func(rc *rules.RC) {
+			rules.LGuards(rc, "C19")
 			rules.M2W(rc, 700)
 			rules.MK(rc, 15)
 			rules.T7(rc)
@@ -475,7 +481,7 @@ func init() {
 			rules.O6(rc)
 			rules.O7(rc, oa)
 			rules.O8(rc)
-			rules.O10(rc, 28)
+			rules.O10(rc, 12)
 		},
 	})
 	register(&Property{
